@@ -45,6 +45,8 @@ def obligations(tier, kf):
     obs.append(Ob('l_order', dict(kf, NLIBS=4, U0=0), 900).mutant('link_libs_keep_first'))
     obs.append(Ob('l_order', dict(kf, NLIBS=3), 600).mutant('forward_recurse_shallow'))
     obs.append(Ob('l_order', dict(kf, NLIBS=3), 600).mutant('fill_options_dedup_forwarded'))
+    fs = Ob('f_static_forward', {}, 600, desc='what a static library forwards: 1-3 static / shared libraries')
+    obs += [fs, fs.twin(), fs.mutant('static_forwards_static_only')]
     n, m = (3, 2) if q else (4, 3)
     for a in range(1, n + 1):
         for b in range(1, m + 1):
